@@ -2,17 +2,19 @@ From Coq Require Import List Bool Arith.
 From HV Require Import FloatIO Bfgs.
 Import ListNotations.
 
-(* per history: after each op, (factor belongs to current metric?, after a Reject: metric equals the one at the last accept?) *)
+(* per history: after each op, (factor belongs to current metric?, after a Reject: metric and reference pair equal those at the
+   last accept?) *)
 Record c03_case := { h_ops : list bop; h_obs : list (bool * bool) }.
 
-Fixpoint observe (s : bstate) (last_acc : nat) (ops : list bop) : list (bool * bool) :=
+Fixpoint observe (s : bstate) (last_acc : nat * nat) (ops : list bop) : list (bool * bool) :=
   match ops with
   | [] => []
   | o :: r =>
       let s' := bstep s o in
-      let la := match o with Accept => minv s' | _ => last_acc end in
-      (Nat.eqb (lt_of s') (minv s'), match o with Reject => Nat.eqb (minv s') la | _ => true end) :: observe s' la r
+      let la := match o with Accept => (minv s', refp s') | _ => last_acc end in
+      (Nat.eqb (lt_of s') (minv s'),
+       match o with Reject => Nat.eqb (minv s') (fst la) && Nat.eqb (refp s') (snd la) | _ => true end) :: observe s' la r
   end.
 
 Definition obs_eq (a b : bool * bool) : bool := Bool.eqb (fst a) (fst b) && Bool.eqb (snd a) (snd b).
-Definition c03_check (c : c03_case) : bool := list_eqb obs_eq (observe binit 0 (h_ops c)) (h_obs c).
+Definition c03_check (c : c03_case) : bool := list_eqb obs_eq (observe binit (0, 0) (h_ops c)) (h_obs c).
